@@ -20,6 +20,7 @@ pub fn orders() -> Vec<usize> {
     let mut v: Vec<usize> = (1..=130).collect();
     v.push(192);
     v.push(257);
+    v.extend([511, 512, 513, 1025]);
     v
 }
 
@@ -72,6 +73,13 @@ where
 
 fn check_all(o: &mut CaseOut, what: &str, m: &Model, al: AdjacencyList, am: AdjacencyMap, mx: AdjacencyMatrix, el: EdgeList) {
     let pairs = m.n() <= 40;
+    if m.n() > 300 && m.size() > 200_000 {
+        // the complete digraph at order 1025 has a million arcs: observe two types only
+        observe(&al, m, o, &format!("AdjacencyList::{what}"), false);
+        observe(&mx, m, o, &format!("AdjacencyMatrix::{what}"), false);
+        o.check(am.order() == m.n() && am.size() == m.size() && el.size() == m.size(), &format!("{what}:size"), String::new);
+        return;
+    }
     observe(&al, m, o, &format!("AdjacencyList::{what}"), pairs);
     observe(&am, m, o, &format!("AdjacencyMap::{what}"), pairs);
     observe(&mx, m, o, &format!("AdjacencyMatrix::{what}"), pairs);
